@@ -133,6 +133,7 @@ func (m *TxManager) AddTxID(ctx context.Context, nodeID uuid.UUID,
 	data, exists := txMap.txs[txid]
 	if exists {
 		txMap.Unlock()
+		simYield("TxManager.AddTxID between map and tx lock")
 		data.Lock()
 
 		if data.Received != nil {
@@ -206,6 +207,7 @@ func (m *TxManager) AddTx(ctx context.Context, interrupt <-chan interface{}, nod
 	data, exists := txMap.txs[txid]
 	if exists {
 		txMap.Unlock()
+		simYield("TxManager.AddTx between map and tx lock")
 		data.Lock()
 
 		isNew := false
@@ -217,6 +219,7 @@ func (m *TxManager) AddTx(ctx context.Context, interrupt <-chan interface{}, nod
 		data.Unlock()
 
 		if isNew {
+			simYield("TxManager.AddTx before send")
 			m.sendTx(ctx, interrupt, tx)
 		}
 
